@@ -136,7 +136,8 @@ _STRLITS = {}
 
 def strlit(s):
     if s not in _STRLITS:
-        _STRLITS[s] = z3.Const("str_" + repr(s), Str)
+        safe = "".join(ch if ch.isalnum() else "_" for ch in s)[:24]
+        _STRLITS[s] = z3.Const(f"strlit_{len(_STRLITS)}_{safe}", Str)
     return _STRLITS[s]
 
 
@@ -308,10 +309,34 @@ def z3_bool(v):
     return z3_truth(v)
 
 
+_QCACHE = {}
+
+
+def has_quant(e):
+    """does the z3 term contain a quantifier (or lambda)?"""
+    k = e.get_id()
+    if k in _QCACHE:
+        return _QCACHE[k][1]
+    seen, stack, res = set(), [e], False
+    while stack:
+        x = stack.pop()
+        i = x.get_id()
+        if i in seen:
+            continue
+        seen.add(i)
+        if z3.is_quantifier(x):
+            res = True
+            break
+        stack.extend(x.children())
+    _QCACHE[k] = (e, res)      # keep the term alive: z3 reuses ids of collected ASTs
+    return res
+
+
 def mkbool(e):
     if isinstance(e, bool):
         return e
-    e = z3.simplify(e)
+    if not has_quant(e):
+        e = z3.simplify(e)
     if z3.is_true(e):
         return True
     if z3.is_false(e):
